@@ -154,6 +154,9 @@ func (c *CBC) Decrypt(header recordlayer.Header, in []byte) ([]byte, error) {
 	}
 
 	dataEnd := len(body) - macSize - paddingLen
+	if dataEnd < 0 {
+		return nil, dtlserrors.ErrInvalidMAC
+	}
 
 	expectedMAC := body[dataEnd : dataEnd+macSize]
 	var err error
